@@ -62,7 +62,7 @@ def one(job):
                 inst = [l.strip()[10:] for l in r.stdout.splitlines() if l.strip().startswith("instance:")]
                 err = [l for l in r.stdout.splitlines() if "ANALYSIS-ERROR" in l]
                 fired[p] = inst or err[:1]
-        dd = OUT / f"{pid}-{k}"
+        dd = OUT / f"{os.environ.get('REF_TAG', '')}{pid}-{k}"
         dd.mkdir(parents=True, exist_ok=True)
         shutil.copy(patch, dd / "patch.diff")
         shutil.copy(equiv, dd / "equiv.py")
